@@ -7,6 +7,7 @@
 #include <tulz/observer/USubscription.h>
 #include <tulz/observer/routing/ConcurrentSubjectRouter.h>
 #include <tulz/observer/routing/RoutingKeyBuilder.h>
+#include <optional>
 #include <tulz/observer/routing/SubjectRouter.h>
 
 #include <algorithm>
@@ -168,9 +169,16 @@ template <class Router, class... Args> struct Runner {
         return r;
     }
     // one notify, fully checked (C06): exact receivers, each once, exact arguments, return value
+    // every second notify passes its pattern in ONE long-lived RoutingKey variable that is re-assigned each time (copy assignment
+    // re-uses the vector's storage: the same RoutingKeyLevel objects, at the same addresses, now hold another pattern) - under
+    // ASan a freshly built temporary never re-uses an address, a re-assigned variable always does
+    std::optional<RoutingKey> keyvar;
+    const RoutingKey &in_reassigned_variable(const Pattern &p) { RoutingKey k = build(p); if (keyvar) *keyvar = k; else keyvar.emplace(k); return *keyvar; }
     std::multiset<int> checked_notify(const Pattern &p, const char *when) {
         sh.log.clear();
-        auto [ret, args] = Sig<Args...>::notify(router, build(p), ++notifies);
+        ++notifies;
+        if (notifies % 2 == 0) label("notify_with_reassigned_key_variable");
+        auto [ret, args] = (notifies % 2 == 0) ? Sig<Args...>::notify(router, in_reassigned_variable(p), notifies) : Sig<Args...>::notify(router, build(p), notifies);
         std::vector<int> want = expected_receivers(p);
         std::multiset<int> got; for (auto &e : sh.log) got.insert(e.first);
         for (int id : want) if (got.count(id) != 1)
